@@ -195,6 +195,144 @@ pub fn family<F: VF>(ctx: &mut Ctx) {
     }
     shape::<F>(ctx);
     compressed_shape(ctx);
+    compressed_malformed(ctx);
+}
+
+const CMAL_FILES: &[&str] = &[
+    "plonky2/src/plonk/proof.rs::CompressedProofWithPublicInputs::verify",
+    "plonky2/src/plonk/proof.rs::CompressedProofWithPublicInputs::decompress",
+    "plonky2/src/plonk/proof.rs::CompressedProofWithPublicInputs::from_bytes",
+    "plonky2/src/plonk/get_challenges.rs::CompressedProofWithPublicInputs::get_inferred_elements",
+    "plonky2/src/fri/proof.rs::CompressedFriProof::decompress",
+    "plonky2/src/hash/path_compression.rs::decompress_merkle_proofs",
+    "plonky2/src/plonk/circuit_data.rs::CircuitData::verify_compressed",
+    "plonky2/src/plonk/circuit_data.rs::CircuitData::decompress",
+];
+
+/// Runs `f`, reporting "ok" / "err" / "panic" and, for a panic, the source file that raised it
+/// (relative to the repository; used as the role of the failing call site).
+fn outcome<R>(f: impl FnOnce() -> anyhow::Result<R>) -> (&'static str, String) {
+    use std::sync::{Arc, Mutex};
+    let site: Arc<Mutex<String>> = Arc::new(Mutex::new(String::new()));
+    let s2 = site.clone();
+    let old = std::panic::take_hook();
+    std::panic::set_hook(Box::new(move |info| {
+        if let Some(l) = info.location() {
+            let f = l.file();
+            let rel = ["plonky2/src/", "starky/src/", "field/src/", "util/src/"].iter().find_map(|m| f.find(m).map(|i| &f[i..])).unwrap_or(f);
+            *s2.lock().unwrap() = rel.to_string();
+        }
+    }));
+    let r = std::panic::catch_unwind(std::panic::AssertUnwindSafe(f));
+    std::panic::set_hook(old);
+    let at = site.lock().unwrap().clone();
+    match r {
+        Ok(Ok(_)) => ("ok", String::new()),
+        Ok(Err(_)) => ("err", String::new()),
+        Err(_) => ("panic", at),
+    }
+}
+
+/// C18 on the compressed entry points: structurally malformed compressed proofs (and edited
+/// encodings) must be rejected with an error by `verify_compressed` and `decompress`, never by a
+/// panic and never accepted. One native proof, concrete structure: evaluated facts on the real API.
+/// (The redundant `indices` list of `CompressedFriQueryRounds` is not a case: verification
+/// recomputes the query indices from the transcript and ignores that field, which only the byte
+/// encoder reads; accepting a proof whose copy of it is wrong does not accept a false statement.)
+fn compressed_malformed(ctx: &mut Ctx) {
+    use plonky2::plonk::circuit_data::CircuitConfig;
+    use plonky2::plonk::config::PoseidonGoldilocksConfig as C;
+    use plonky2::plonk::proof::CompressedProofWithPublicInputs as CP;
+    use plonky2_field::goldilocks_field::GoldilocksField as G;
+    if !ctx.wants("C18.S.plonkv.shape.compressed") {
+        return;
+    }
+    let built = std::panic::catch_unwind(|| {
+        // two FRI reduction steps, so that the per-step maps of the compressed proof are populated
+        let mut cfg = CircuitConfig::standard_recursion_config();
+        cfg.fri_config.reduction_strategy = plonky2::fri::reduction_strategies::FriReductionStrategy::Fixed(vec![1, 1]);
+        let mut b = plonky2::plonk::circuit_builder::CircuitBuilder::<G, 2>::new(cfg);
+        let x = b.add_virtual_target();
+        let y = b.add_virtual_target();
+        let mut z = b.mul(x, y);
+        for _ in 0..100 {
+            z = b.mul_add(z, y, x);
+        }
+        b.register_public_input(x);
+        b.register_public_input(z);
+        let data = b.build::<C>();
+        let mut pw = PartialWitness::<G>::new();
+        pw.set_target(x, G::from_canonical_u64(3)).unwrap();
+        pw.set_target(y, G::from_canonical_u64(5)).unwrap();
+        let proof = data.prove(pw).expect("honest proof");
+        let comp = data.compress(proof).expect("compress");
+        (data, comp)
+    });
+    let Ok((data, comp)) = built else {
+        ctx.guarded("C18.S.plonkv.shape.compressed.setup", CMAL_FILES, |_| panic!("building / proving / compressing the tiny circuit panicked"));
+        return;
+    };
+    type M = Box<dyn Fn(&mut CP<G, C, 2>)>;
+    let first_key = |p: &CP<G, C, 2>| *p.proof.opening_proof.query_round_proofs.initial_trees_proofs.keys().min().unwrap();
+    let cases: Vec<(&str, M)> = vec![
+        ("honest", Box::new(|_| {})),
+        ("openings.wires.remove-last", Box::new(|p| { p.proof.openings.wires.pop(); })),
+        ("openings.quotient_polys.doubled", Box::new(|p| { let e = p.proof.openings.quotient_polys.clone(); p.proof.openings.quotient_polys.extend(e); })),
+        ("openings.plonk_zs.empty", Box::new(|p| p.proof.openings.plonk_zs.clear())),
+        ("wires_cap.remove-last", Box::new(|p| { p.proof.wires_cap.0.pop(); })),
+        ("fri.initial_trees_proofs.remove-one", Box::new(move |p| { let k = first_key(p); p.proof.opening_proof.query_round_proofs.initial_trees_proofs.remove(&k); })),
+        ("fri.initial_trees_proofs.empty", Box::new(|p| p.proof.opening_proof.query_round_proofs.initial_trees_proofs.clear())),
+        ("fri.initial.evals_proofs.remove-last", Box::new(move |p| { let k = first_key(p); p.proof.opening_proof.query_round_proofs.initial_trees_proofs.get_mut(&k).unwrap().evals_proofs.pop(); })),
+        ("fri.initial.evals[0].remove-last", Box::new(move |p| { let k = first_key(p); p.proof.opening_proof.query_round_proofs.initial_trees_proofs.get_mut(&k).unwrap().evals_proofs[0].0.pop(); })),
+        ("fri.steps.remove-last", Box::new(|p| { p.proof.opening_proof.query_round_proofs.steps.pop(); })),
+        ("fri.steps[0].remove-one", Box::new(|p| { let s = &mut p.proof.opening_proof.query_round_proofs.steps[0]; let k = *s.keys().min().unwrap(); s.remove(&k); })),
+        ("fri.steps[0].evals.remove-last", Box::new(|p| { let s = &mut p.proof.opening_proof.query_round_proofs.steps[0]; let k = *s.keys().min().unwrap(); s.get_mut(&k).unwrap().evals.pop(); })),
+        ("fri.steps[0].evals.duplicate-last", Box::new(|p| { let s = &mut p.proof.opening_proof.query_round_proofs.steps[0]; let k = *s.keys().min().unwrap(); let v = &mut s.get_mut(&k).unwrap().evals; let e = *v.last().unwrap(); v.push(e); })),
+        ("fri.steps[0].siblings.empty", Box::new(|p| { for q in p.proof.opening_proof.query_round_proofs.steps[0].values_mut() { q.merkle_proof.siblings.clear(); } })),
+        ("fri.initial.siblings.empty", Box::new(|p| { for q in p.proof.opening_proof.query_round_proofs.initial_trees_proofs.values_mut() { for e in q.evals_proofs.iter_mut() { e.1.siblings.clear(); } } })),
+        ("fri.commit_phase_merkle_caps.remove-last", Box::new(|p| { p.proof.opening_proof.commit_phase_merkle_caps.pop(); })),
+        ("fri.final_poly.remove-last", Box::new(|p| { p.proof.opening_proof.final_poly.coeffs.pop(); })),
+    ];
+    for (name, m) in cases {
+        for entry in ["verify_compressed", "decompress"] {
+            let id = format!("C18.S.plonkv.shape.compressed.{name}.{entry}");
+            ctx.guarded(&id.clone(), CMAL_FILES, |ctx| {
+                let mut p = comp.clone();
+                m(&mut p);
+                let (what, at) = if entry == "verify_compressed" {
+                    outcome(|| data.verify_compressed(p))
+                } else {
+                    outcome(|| data.decompress(p).and_then(|d| data.verify(d)))
+                };
+                let good = if name == "honest" { what == "ok" } else { what == "err" };
+                ctx.add(
+                    Ob::new(id.clone(), CMAL_FILES, format!("one native compressed proof (standard_recursion_config with two arity-2 FRI reductions, Poseidon) with the change `{name}`, handed to {}; concrete structure", if entry == "decompress" { "decompress followed by verify" } else { "verify_compressed" }))
+                        .sample(format!("{}; observed: {what}{}", if name == "honest" { "the honest compressed proof is accepted" } else { "a malformed compressed proof is rejected with an error (no panic, no acceptance)" }, if at.is_empty() { String::new() } else { format!(" at {at}") }))
+                        .goal(A::Bool(good))
+                        .key(format!("compressed-path:{entry}:{}:{}", name.split('.').next().unwrap(), if what == "panic" { format!("panic-in:{at}") } else { format!("{name}:{what}") })),
+                );
+            });
+        }
+    }
+    // edited encodings: every single-bit flip of the first query index's low byte
+    let bytes = comp.to_bytes();
+    let pattern: Vec<u8> = comp.proof.opening_proof.query_round_proofs.indices.iter().flat_map(|&i| (i as u32).to_le_bytes()).collect();
+    if let Some(pos) = bytes.windows(pattern.len()).position(|w| w == pattern.as_slice()) {
+        for bit in 0..8 {
+            let id = format!("C18.S.plonkv.shape.compressed.bytes.query-index-bit{bit}");
+            ctx.guarded(&id.clone(), CMAL_FILES, |ctx| {
+                let mut e = bytes.clone();
+                e[pos] ^= 1 << bit;
+                let (what, at) = outcome(|| CP::<G, C, 2>::from_bytes(e, &data.common).and_then(|d| data.verify_compressed(d)));
+                ctx.add(
+                    Ob::new(id.clone(), CMAL_FILES, format!("valid compressed encoding ({} bytes) with bit {bit} of the first query index flipped; from_bytes then verify_compressed", bytes.len()))
+                        .sample(format!("decoding and verification do not panic (an edited encoding that still decodes to a proof the verifier accepts is a second encoding of a valid proof: the index list is redundant with the transcript); observed: {what}{}", if at.is_empty() { String::new() } else { format!(" at {at}") }))
+                        .goal(A::Bool(what != "panic"))
+                        .key(format!("compressed-path:from_bytes+verify_compressed:bytes:{}", if what == "panic" { "panic".to_string() } else { format!("index-bit:{what}") })),
+                );
+            });
+        }
+    }
 }
 
 const COMP_FILES: &[&str] = &[
